@@ -341,3 +341,24 @@ fn c07_twin_unblock_reports_success() {
     unblock_from(-12, B1, B1 + 32, 16, (16, 3), NONE, &mut seen);
     assert!(!seen.unblocked_neg, "C07: TWIN unblock never reports success");
 }
+
+/// A dead claim whose record length is NOT a multiple of 8 (header says -12: a 4-byte command), alone in the ring,
+/// message area already zero: unblock turns it into padding, and the next read must step over the WHOLE aligned claim.
+// @verif tier=quick fs=801 unwind=4 unwindset=RingBuffer4read:6,set_memory:33,unblock:100,scan_back:100
+#[kani::proof]
+fn c07_unblock_unaligned_dead_record_read_resumes_on_record_grid() {
+    let m = ring_mem();
+    let head = B1; // some lap, consumer index 0
+    set_positions(m, head, head + 16, head);
+    let ci = (head as i128 % CAP as i128) as usize;
+    m.set_i32(ci, -12);
+    m.set_i32(ci + 4, CMD_A as i32);
+    let rb = ring();
+    let u = rb.unblock();
+    assert!(u, "C07: an abandoned claim with a negative length word is unblocked");
+    let mut log = EMPTY_LOG;
+    let _c = rb.read(|t, b| log_push(&mut log, t, b), i32::MAX);
+    let h1 = m.i64_at(HEAD_AT);
+    assert!(h1 == head + 16, "C07: after unblock the read steps over the whole (aligned) dead claim and stops at the producer position");
+    assert!(log.n == 0, "C07: padding is never handed out as a command");
+}
